@@ -174,6 +174,22 @@ class LibMixin:
                 return default
             raise
 
+    def b_eval(self, args, kwargs, node, anchor):
+        """eval(expr, globals, locals): trusted.  Runs host code: may raise any BaseException; the result is an
+        arbitrary host value determined by (expr, scopes) - configured expressions are assumed side-effect free."""
+        while len(args) < 3:
+            args = list(args) + [VNone]
+        self.st.log.append(LogEntry("eval", list(args), {}, None, anchor))
+        f_raises = z3.Function("Eval_raises", Val, Val, Val, B)
+        f_res = z3.Function("Eval_res", Val, Val, Val, Val)
+        if self.ctx.branch(f_raises(*args[:3]), "eval raises"):
+            self.raise_symbolic(anchor, "BaseException", "eval")
+        res = f_res(*args[:3])
+        from .core import ALLOC_BASE
+        self.ctx.assume(z3.Implies(Val.is_VRef(res), z3.And(Val.r(res) > 0, Val.r(res) < ALLOC_BASE,
+                        self.host_or_builtin_class(z3.Select(self.st.typeof, Val.r(res))))))
+        return res
+
     def b_super(self, args, kwargs, node, anchor):
         raise Unsupported("super(args)")
 
